@@ -2,6 +2,7 @@ package streams
 
 import (
 	"fmt"
+	"strings"
 	"time"
 
 	"google.golang.org/grpc/codes"
@@ -63,9 +64,19 @@ func Names(ls []Letter) []string {
 	return out
 }
 
-func search(rep *report.Report, label string, o *Options, depth int, dl time.Time) mc.Result {
-	res := mc.BFS(mc.Config{Letters: Names(o.Letters), New: New(o), MaxDepth: depth, Deadline: dl, Workers: 1})
-	ribhist.Merge(rep, label, res, depth)
+// named is one search of a property's check.
+type named struct {
+	label string
+	o     *Options
+	depth int
+}
+
+// registry: the searches of each property, per tier (parent and shard children must agree on it).
+var registry = map[string]func(tier string) []named{"C09": c09Searches, "C10": c10Searches, "C06": c06Searches}
+
+const parentLevels = 2
+
+func account(rep *report.Report, o *Options, res mc.Result) {
 	rep.Add("evaluations", res.Transitions)
 	for i, n := range res.PerLetter {
 		l := o.Letters[i]
@@ -73,24 +84,90 @@ func search(rep *report.Report, label string, o *Options, depth int, dl time.Tim
 			rep.Add("distinct_nontrivial", n)
 		}
 	}
-	return res
+}
+
+// runSharded runs the searches of prop: the first levels in this process, the subtrees below them in shard
+// processes (one controlled execution at a time per process).
+func runSharded(rep *report.Report, prop, tier string, dl time.Time) {
+	var parts []string
+	for _, ns := range registry[prop](tier) {
+		lv := parentLevels
+		if ns.depth < lv {
+			lv = ns.depth
+		}
+		res := mc.BFS(mc.Config{Letters: Names(ns.o.Letters), New: New(ns.o), MaxDepth: lv, Deadline: dl, Workers: 1, KeepFrontier: true})
+		ribhist.Merge(rep, ns.label+"/levels-1-"+fmt.Sprint(lv), res, lv)
+		account(rep, ns.o, res)
+		rep.Set("search:"+ns.label+"/target-depth", ns.depth)
+		if ns.depth > lv {
+			for _, h := range res.Frontier {
+				parts = append(parts, fmt.Sprintf("%s#%s", ns.label, strings.Trim(strings.Join(strings.Fields(fmt.Sprint(h)), ","), "[]")))
+			}
+		}
+	}
+	rep.Set("shards", len(parts))
+	rep.Shards(parts, 14, nil)
+}
+
+// Child runs one shard: the subtree of search label below the root history.
+func Child(prop string) func(rep *report.Report, tier, part string) {
+	return func(rep *report.Report, tier, part string) {
+		label, roots, _ := strings.Cut(part, "#")
+		var root []int
+		for _, f := range strings.Split(roots, ",") {
+			var n int
+			fmt.Sscan(f, &n)
+			root = append(root, n)
+		}
+		dl := ribhist.Budget(tier, 90*time.Second, 20*time.Minute)
+		for _, ns := range registry[prop](tier) {
+			if ns.label != label {
+				continue
+			}
+			res := mc.BFS(mc.Config{Letters: Names(ns.o.Letters), New: New(ns.o), MaxDepth: ns.depth, Deadline: dl, Workers: 1, Root: root})
+			rep.Add("states", res.States-1)
+			rep.Add("transitions", res.Transitions)
+			rep.Add("traces_validated_against_impl", res.Transitions)
+			rep.Add("real_calls", res.RealCalls)
+			rep.Add("revisits", res.Revisits)
+			rep.And("exhaustive", res.Exhaustive)
+			rep.Add("sub:"+label+":states", res.States-1)
+			rep.Add("sub:"+label+":transitions", res.Transitions)
+			if !res.Exhaustive {
+				rep.Add("sub:"+label+":shards-cut-by-deadline", 1)
+			}
+			account(rep, ns.o, res)
+			for _, smp := range res.Samples {
+				rep.Sample(map[string]any{"search": label, "history": smp})
+			}
+			for _, f := range res.Fails {
+				rep.Violate(f.Sig, f.What, map[string]any{"search": label, "history": f.History})
+			}
+		}
+	}
+}
+
+func c09Searches(tier string) []named {
+	n, depth := 2, 7
+	if tier == "thorough" {
+		n, depth = 3, 8
+	}
+	ls := c09Letters(n, tier == "thorough")
+	o := &Options{Letters: ls, Sessions: n, Checks: Checks{Protocol: true}}
+	// from a non-initial state: session 0 is the negotiated primary with an entry installed
+	init := []Letter{ls[0], {K: kParams, S: 0, P: pOK}, {K: kElect, S: 0, ID: ID{Lo: 1}}, {K: kOps, S: 0, Ops: []OpT{{entry("ADD nh1"), stOwn}}}}
+	o2 := &Options{Letters: ls, Sessions: n, Checks: Checks{Protocol: true}, Init: init}
+	return []named{
+		{fmt.Sprintf("modify-streams/%d-sessions", n), o, depth},
+		{fmt.Sprintf("modify-streams/%d-sessions/from-primary-established", n), o2, depth - 1},
+	}
 }
 
 // RunC09 decides C09.
 func RunC09(rep *report.Report, tier string) {
-	dl := ribhist.Budget(tier, 100*time.Second, 20*time.Minute)
-	n, depth := 2, 6
-	if tier == "thorough" {
-		n, depth = 3, 7
-	}
-	ls := c09Letters(n, tier == "thorough")
-	rep.Set("alphabet", Names(ls))
-	o := &Options{Letters: ls, Sessions: n, Checks: Checks{Protocol: true}}
-	search(rep, fmt.Sprintf("modify-streams/%d-sessions", n), o, depth, dl)
-	// from a non-initial state: session 0 is the negotiated primary with an entry installed
-	init := []Letter{ls[0], {K: kParams, S: 0, P: pOK}, {K: kElect, S: 0, ID: ID{Lo: 1}}, {K: kOps, S: 0, Ops: []OpT{{entry("ADD nh1"), stOwn}}}}
-	o2 := &Options{Letters: ls, Sessions: n, Checks: Checks{Protocol: true}, Init: init}
-	search(rep, fmt.Sprintf("modify-streams/%d-sessions/from-primary-established", n), o2, depth-1, dl)
+	ss := c09Searches(tier)
+	rep.Set("alphabet", Names(ss[0].o.Letters))
+	runSharded(rep, "C09", tier, ribhist.Budget(tier, 100*time.Second, 20*time.Minute))
 }
 
 var _ = codes.OK
@@ -123,22 +200,72 @@ func c10Letters(n int, thorough bool) []Letter {
 	return ls
 }
 
-// RunC10 decides C10.
-func RunC10(rep *report.Report, tier string) {
-	dl := ribhist.Budget(tier, 100*time.Second, 20*time.Minute)
-	n, depth := 1, 6
+func c10Searches(tier string) []named {
+	n, depth := 1, 7
 	if tier == "thorough" {
-		n, depth = 2, 7
+		n, depth = 2, 8
 	}
 	ls := c10Letters(n, tier == "thorough")
-	rep.Set("alphabet", Names(ls))
-	rep.Set("rule", "cases are (history, letter) pairs executed on a fresh real server, histories being the shortest representatives of the distinct canonical server states; non-trivial = the letter is a fault (half-close, cancel, transport failure, request cut right after sending, Get abandoned after k responses), each followed by the state comparison and the liveness probe")
 	o := &Options{Letters: ls, Sessions: n, Checks: Checks{Disconnect: true}}
-	search(rep, fmt.Sprintf("faults/%d-sessions/from-empty", n), o, depth, dl)
 	// from a populated server: primary established with a chain of entries and a second next-hop installed
 	l1 := c10Letters(1, false)
 	init := []Letter{l1[0], l1[1], l1[2], l1[3], l1[6], l1[4], l1[5]} // open, params, election, nh1, nh2, nhg1, v4
 	ls2 := c10Letters(2, tier == "thorough")
 	o2 := &Options{Letters: ls2, Sessions: 2, Checks: Checks{Disconnect: true}, Init: init}
-	search(rep, "faults/2-sessions/from-chain-installed", o2, depth-3, dl)
+	return []named{
+		{fmt.Sprintf("faults/%d-sessions/from-empty", n), o, depth},
+		{"faults/2-sessions/from-chain-installed", o2, depth - 3},
+	}
+}
+
+// RunC10 decides C10.
+func RunC10(rep *report.Report, tier string) {
+	ss := c10Searches(tier)
+	rep.Set("alphabet", Names(ss[1].o.Letters))
+	rep.Set("rule", "cases are (history, letter) pairs executed on a fresh real server, histories being the shortest representatives of the distinct canonical server states; non-trivial = the letter is a fault (half-close, cancel, transport failure, request cut right after sending, Get abandoned after k responses), each followed by the state comparison and the liveness probe")
+	runSharded(rep, "C10", tier, ribhist.Budget(tier, 100*time.Second, 20*time.Minute))
+}
+
+func c06Letters(n int, p *spb.SessionParameters) []Letter {
+	var ls []Letter
+	for s := 0; s < n; s++ {
+		ls = append(ls, Letter{Name: fmt.Sprintf("s%d open", s), K: kOpen, S: s})
+		ls = append(ls, Letter{Name: fmt.Sprintf("s%d params", s), K: kParams, S: s, P: p})
+		ls = append(ls, Letter{Name: fmt.Sprintf("s%d election %v", s, ID{Lo: uint64(s + 1)}), K: kElect, S: s, ID: ID{Lo: uint64(s + 1)}})
+		for _, e := range []string{"ADD nh1", "ADD nhg1{1}", "ADD v4->1", "REPLACE v4->2", "DELETE v4", "ADD nh2 @\"\""} {
+			ls = append(ls, Letter{Name: fmt.Sprintf("s%d op[%s]", s, e), K: kOps, S: s, Ops: []OpT{{entry(e), stOwn}}})
+		}
+		ls = append(ls, Letter{Name: fmt.Sprintf("s%d ops[ADD v4->1, ADD nhg1{1}, ADD nh1]", s), K: kOps, S: s, Ops: []OpT{{entry("ADD v4->1"), stOwn}, {entry("ADD nhg1{1}"), stOwn}, {entry("ADD nh1"), stOwn}}})
+		ls = append(ls, Letter{Name: fmt.Sprintf("s%d close", s), K: kClose, S: s})
+	}
+	return ls
+}
+
+func c06Searches(tier string) []named {
+	depth := 6
+	if tier == "thorough" {
+		depth = 7
+	}
+	var out []named
+	for _, cfg := range []struct {
+		name string
+		p    *spb.SessionParameters
+	}{{"rib-ack", pOK}, {"fib-ack", pFIB}} {
+		ls := c06Letters(2, cfg.p)
+		o := &Options{Letters: ls, Sessions: 2, Checks: Checks{Answers: true, Primary: true}}
+		if tier == "thorough" || cfg.name == "rib-ack" {
+			out = append(out, named{"modify-streams/" + cfg.name + "/from-empty", o, depth})
+		}
+		// session 0 is primary and has a held operation; session 1 takes over
+		init := []Letter{ls[0], ls[1], ls[2], ls[5]}
+		o2 := &Options{Letters: ls, Sessions: 2, Checks: Checks{Answers: true, Primary: true}, Init: init}
+		out = append(out, named{"modify-streams/" + cfg.name + "/from-primary-with-held-operation", o2, depth - 1})
+	}
+	return out
+}
+
+// RunC06B is tier B of C06 (and C04): result accounting on real Modify streams including primary hand-over with
+// held operations.
+func RunC06B(rep *report.Report, tier string, dl time.Time) {
+	runSharded(rep, "C06", tier, dl)
 }
